@@ -37,6 +37,7 @@ type Irq struct {
 type HostFault struct {
 	Call int    `json:"call"` // hf() call number (1-based) that faults
 	Kind string `json:"kind"` // go_string | go_error | go_int | go_struct | js_type | js_custom
+	Any  bool   `json:"any,omitempty"` // count every host-function call of the main program (emit, nid, hf), not only hf
 }
 
 type StepCase struct {
@@ -99,6 +100,8 @@ type stepRun struct {
 	overrun  bool
 	viol     *Violation
 	hfCalls  int
+	anyCalls int
+	faultJournalLen int
 	hfVals   []interface{}
 	gid      string
 	maxSteps int
@@ -364,6 +367,33 @@ func valStr(v otto.Value) string {
 	return v.String()
 }
 
+// hostFault panics if the case schedules a host-function fault for this call.
+func (r *stepRun) hostFault(call otto.FunctionCall, isHf bool) {
+	if !r.active {
+		return
+	}
+	r.anyCalls++
+	if isHf {
+		r.hfCalls++
+	}
+	for _, hf := range r.c.HostFaults {
+		if (hf.Any && hf.Call == r.anyCalls) || (!hf.Any && isHf && hf.Call == r.hfCalls) {
+			r.st.Fault("host_" + hf.Kind)
+			r.faultJournalLen = len(r.journal)
+			switch hf.Kind {
+			case "js_type":
+				panic(call.Otto.MakeTypeError("injected host TypeError"))
+			case "js_custom":
+				panic(call.Otto.MakeCustomError("HostFault", "injected host error"))
+			default:
+				p := makePayload(hf.Kind)
+				r.hfVals = append(r.hfVals, p)
+				panic(p)
+			}
+		}
+	}
+}
+
 func (r *stepRun) install() {
 	vm := r.vm
 	must := func(err error) {
@@ -372,6 +402,7 @@ func (r *stepRun) install() {
 		}
 	}
 	must(vm.Set("emit", func(call otto.FunctionCall) otto.Value {
+		r.hostFault(call, false)
 		tag := call.Argument(0).String()
 		t, _ := call.Argument(1).ToInteger()
 		k, _ := call.Argument(2).ToInteger()
@@ -386,27 +417,13 @@ func (r *stepRun) install() {
 		return otto.UndefinedValue()
 	}))
 	must(vm.Set("nid", func(call otto.FunctionCall) otto.Value {
+		r.hostFault(call, false)
 		r.nextID++
 		v, _ := otto.ToValue(r.nextID)
 		return v
 	}))
 	must(vm.Set("hf", func(call otto.FunctionCall) otto.Value {
-		r.hfCalls++
-		for _, hf := range r.c.HostFaults {
-			if hf.Call == r.hfCalls {
-				r.st.Fault("host_" + hf.Kind)
-				switch hf.Kind {
-				case "js_type":
-					panic(call.Otto.MakeTypeError("injected host TypeError"))
-				case "js_custom":
-					panic(call.Otto.MakeCustomError("HostFault", "injected host error"))
-				default:
-					p := makePayload(hf.Kind)
-					r.hfVals = append(r.hfVals, p)
-					panic(p)
-				}
-			}
-		}
+		r.hostFault(call, true)
 		return otto.UndefinedValue()
 	}))
 	rethrow := func(call otto.FunctionCall, err error) {
@@ -885,6 +902,33 @@ func judge(c *StepCase, r0, r1 *RunResult) *Violation {
 	return postChecks(c, r1)
 }
 
+// judgeHost: oracles for a run with an extra host-function fault.
+func judgeHost(c *StepCase, r0, r1 *RunResult) *Violation {
+	r := r1.run
+	if r.viol != nil {
+		return r.viol
+	}
+	if r.overrun {
+		return viol("C18", "runaway", "terminating program exceeded %d steps only because a host function panicked (reference: %d steps)", stepCapA, r0.Steps)
+	}
+	if r1.Panicked {
+		ok := false
+		for _, hv := range r.hfVals {
+			if payloadEqual(r1.PanicVal, hv) {
+				ok = true
+			}
+		}
+		if !ok {
+			return viol("C18", "foreign_panic", "Run panicked with %T(%v) which no fault injected", r1.PanicVal, r1.PanicVal)
+		}
+	}
+	n := r.faultJournalLen
+	if n > len(r1.Journal) || !isPrefix(r1.Journal[:n], r0.Journal) {
+		return viol("C18", "journal_not_prefix", "journal before the faulting host call is not a prefix of the reference journal")
+	}
+	return postChecks(c, r1)
+}
+
 // ---------------------------------------------------------------------------
 // case generation
 
@@ -1221,6 +1265,24 @@ func (stepEngine) Exec(ci interface{}, st *Stats) (*Violation, interface{}, bool
 					return v, &cc, true
 				}
 			}
+		}
+		// host-function panic at every host call of the program (the analogue of
+		// the interrupt sweep for the "panic from a host function" clause)
+		if m := r0.run.anyCalls; m > 0 && m <= 150 {
+			for _, kind := range []string{"go_string", "go_error", "js_custom"} {
+				for j := 1; j <= m; j++ {
+					cc := *c
+					cc.Mode = "seeded"
+					cc.Irqs = nil
+					cc.HostFaults = append(append([]HostFault(nil), c.HostFaults...), HostFault{Call: j, Kind: kind, Any: true})
+					r1 := execRun(&cc, nil, true, st, false)
+					st.NonTrivial++
+					if v := judgeHost(&cc, r0, r1); v != nil {
+						return v, &cc, true
+					}
+				}
+			}
+			st.Probe("host_panic_swept_at_every_host_call")
 		}
 		return nil, nil, true
 	}
